@@ -15,6 +15,7 @@ REGISTRY = {
     'C06': ('checks.layout', 'check_c06', 'model_checking'),
     'C15': ('checks.registry', 'check_c15', 'model_checking'),
     'C18': ('checks.config', 'check_c18', 'model_checking'),
+    'C19': ('checks.history', 'check_c19', 'exploration'),
     'C20': ('checks.threads', 'check_c20', 'model_checking'),
 }
 
